@@ -67,6 +67,18 @@ var suiteTexts = []string{"", "x", "OCRA-1:HOTP-SHA1-6:QN08", strings.Repeat("su
 
 func c05(r *ev.Run) {
 	r.Scenario("ocra-generate", func(raw []byte) (string, string) { return ocraGen(unjson[c05Case](raw)) })
+	{
+		var cs []c05Case
+		for i, sh := range usableShapes([]int{60}) {
+			x := sh
+			x.Hash, x.Digits = i%3, 4+i%7
+			x.Text = suiteTexts[i%len(suiteTexts)]
+			for k := 0; k < 3; k++ {
+				cs = append(cs, c05Case{"config", x, (i + k) % len(ocraKeys), junk(x, admissible(x, k*5+i), k+i)})
+			}
+		}
+		afterWarmups(r, "ocra-generate-after-other-operations", cs, ocraGen)
+	}
 	if ReplayOnly {
 		return
 	}
